@@ -64,10 +64,12 @@ def gen_count_array(rng, num_bins, num_patches, auto, sparsity=None, integer=Non
     return arr
 
 
-def gen_sum_weights(rng, num_bins, num_patches, auto, zero_prob=0.05):
+def gen_sum_weights(rng, num_bins, num_patches, auto, zero_prob=0.05, independent=False):
+    """independent: the two weight arrays of an auto container differ (a user-built or merged container;
+    measurements always produce equal ones)."""
     sw1 = rng.uniform(0.5, 50, (num_bins, num_patches))
     sw1[rng.random(sw1.shape) < zero_prob] = 0.0
-    if auto:
+    if auto and not independent:
         sw2 = sw1.copy()
     else:
         sw2 = rng.uniform(0.5, 50, (num_bins, num_patches))
@@ -77,13 +79,13 @@ def gen_sum_weights(rng, num_bins, num_patches, auto, zero_prob=0.05):
     return sw1, sw2
 
 
-def gen_normalised_counts(rng, binning, num_patches, auto, sum_weights=None, **kw):
+def gen_normalised_counts(rng, binning, num_patches, auto, sum_weights=None, independent_weights=False, **kw):
     from yaw.correlation.paircounts import NormalisedCounts, PatchedCounts, PatchedSumWeights
 
     nb = len(binning)
     counts = PatchedCounts(binning, gen_count_array(rng, nb, num_patches, auto, **kw), auto=auto)
     if sum_weights is None:
-        sw1, sw2 = gen_sum_weights(rng, nb, num_patches, auto)
+        sw1, sw2 = gen_sum_weights(rng, nb, num_patches, auto, independent=independent_weights)
         sum_weights = PatchedSumWeights(binning, sw1, sw2, auto=auto)
     return NormalisedCounts(counts, sum_weights)
 
